@@ -37,13 +37,13 @@ CLAIMS = {
         "note": TB + "Fields are assumed to hold ints or None (the property's quantifier). Validity of burst *contents* is not constrained by the statement.",
     },
     "C12": {
-        "technique": "who-may-write scans, guard-literal analysis, complete boolean decision tables of the clock-link / start-stop / POWERON / ready branches, linear normal forms of port expressions",
+        "technique": "who-may-write scans, guard-literal analysis, complete boolean decision tables of the clock-link / start-stop / POWERON / ready branches, linear normal forms of port expressions, lock-order / thread-join effect analysis on the name-resolved call graph",
         "text": "Decides for all configurations: `running` is written only by the constructor (False) and power_event_handler "
                 "(= poweron) for [self + children] iff managing parent else [self]; power-off clears queue and hopping of each; the "
                 "clock-link and generator start/stop actions equal the specified decision table over all 16 truth assignments, link "
                 "update first; POWERON succeeds iff not running and ready (ready = tuned or hopping), POWEROFF always; only parse_cmd "
                 "issues power events; interface ports are base+2*idx+{102,2}/{101,1} and base+{100,0} in UDPLink's (remote, bind) "
-                "order; children get no clock and are linked to their parent; MS does not manage children. Application.trx_def (regular expression included) is folded for witness --trx definitions with 0..3-digit child indexes (R7). The transceiver factory (append_trx / append_child_trx) is folded with the constructor as recording oracle: every keyword reaches the constructor, parents get the shared clock, children none.",
+                "order; children get no clock and are linked to their parent; MS does not manage children. Application.trx_def (regular expression included) is folded for witness --trx definitions with 0..3-digit child indexes (R7). The transceiver factory (append_trx / append_child_trx) is folded with the constructor as recording oracle: every keyword reaches the constructor, parents get the shared clock, children none. R1 also confines the plain tuning state (_rx_freq / _tx_freq) to the constructor and the RXTUNE / TXTUNE handler (a resolved hopping frequency must not leak into it and survive POWEROFF). R10 (lock order): on the name-resolved call graph no `with <lock>` region reaches a join() of a thread whose own code takes the same lock (POWEROFF stopping the clock generator under the queue mutex would never return).",
         "note": TB + "Not decided: the iff between `running` and the whole command history as such (follows from the single-writer rule and the decision tables by induction, argued not checked); trxcon's socket plan is cross-checked where cfront is available.",
     },
     "C18": {
@@ -57,22 +57,22 @@ CLAIMS = {
         "note": TB + "Not decided: 'exactly the next n matching bursts' as a count over a stream (follows by induction from the one-decrement-per-suppressed-burst rule).",
     },
     "C05": {
-        "technique": "decision tables of the receive path, structural normal form of the reply, return-value analysis of the dispatchers, verb/arity table extraction vs spec and vs trxcon's emitted commands (clang AST), exhaustive folding over the 4-bit version domain, buffer-size agreement",
+        "technique": "decision tables of the receive path, structural normal form of the reply, return-value analysis of the dispatchers, verb/arity table extraction vs spec and vs trxcon's emitted commands (clang AST), exhaustive folding over the 4-bit version domain, buffer-size agreement, who-may-write of the negotiated header version",
         "text": "Decides for every datagram: exactly one send_response iff the CMD signature verified (none for undecodable or unsigned datagrams), to the "
                 "address of the same recvfrom, with 'RSP ' + verb, status inserted at index 1, arguments, optional results + NUL, always sent; both "
                 "dispatchers return a status on every path, unknown verbs 0; the accepted (verb, argc) table equals spec/trxc.json and accepts every "
                 "command trxcon emits; handlers read only arguments their arity guarantees; SETFORMAT/MEASURE/tuning decision tables; "
-                "set_hdr_ver/pick_hdr_ver folded for all 16 versions; the control receive size covers trxcon's TRXC_BUF_SIZE. The whole receive path (handle_rx .. sendto) is folded for ten scenario datagrams / handler results: number of replies, exact reply text, destination (shape rules on send_response are only a fallback when the code does not fold); a frame number that may be None reaches the hopping resolver only for non-hopping transceivers (R7, two decision tables).",
+                "set_hdr_ver/pick_hdr_ver folded for all 16 versions; the control receive size covers trxcon's TRXC_BUF_SIZE. The whole receive path (handle_rx .. sendto) is folded for ten scenario datagrams / handler results: number of replies, exact reply text, destination (shape rules on send_response are only a fallback when the code does not fold); a frame number that may be None reaches the hopping resolver only for non-hopping transceivers (R7, two decision tables). R9: the negotiated header version has three writers only (constructor, set_hdr_ver, the SETFORMAT branch): who-may-write scan over the toolkit plus a fold of the command handler for every other verb with the interface on version 1.",
         "note": TB + "Not decided: status/side effects as a function of the whole command history beyond the per-branch guard rules (POWERON/POWEROFF tables are under C12).",
     },
     "C14": {
-        "technique": "interprocedural exception-escape + taint analysis (raw/derived kinds, handler stack, class-hierarchy call resolution), length-guard interval analysis of the parser per header version, attribute-sanitisation rule (store-site guards vs partial operations on other paths), NULL-contradiction and buffer-bound rules on the clang AST of trx_if.c",
+        "technique": "interprocedural exception-escape + taint analysis (raw/derived kinds, handler stack, class-hierarchy call resolution), length-guard interval analysis of the parser per header version, attribute-sanitisation rule (store-site guards vs partial operations on other paths), NULL-contradiction and buffer-bound rules on the clang AST of trx_if.c, use-after-release typestate on the C statement CFG",
         "text": "Decides for all octet strings: every index/unpack of TxMsg/RxMsg.parse_msg lies inside the length proven by its guards for each of "
                 "the 16 version codes and the parser raises only ValueError; no exception class raised by a partial operation on received "
                 "data (decode, int(), subscripts, unpack, %, randint, sleep) or by a reachable raise can leave recv_data_msg, handle_rx or the "
                 "capture reader; integers stored from commands into attributes used by partial operations on other paths (clock thread) are "
                 "range-checked where stored or guarded where used; in trxcon a strchr() result is never offset/dereferenced without a NULL "
-                "test and receive-buffer stores/offsets stay in bounds. Results of strchr-like calls used on the spot are flagged; raises guarded by a type test that the call chain's static argument type falsifies, or by a condition interval arithmetic over validated attribute ranges decides false, are unreachable; the header-description helpers used in the rejection log lines are total on messages with None fields (R9). R10: every llist_entry(<head>.next) in trxcon's trx_if.c is dominated by !llist_empty(&<head>); str.encode(<narrow codec>) of text carrying received characters counts as a partial operation in the escape analysis.",
+                "test and receive-buffer stores/offsets stay in bounds. Results of strchr-like calls used on the spot are flagged; raises guarded by a type test that the call chain's static argument type falsifies, or by a condition interval arithmetic over validated attribute ranges decides false, are unreachable; the header-description helpers used in the rejection log lines are total on messages with None fields (R9). R10: every llist_entry(<head>.next) in trxcon's trx_if.c is dominated by !llist_empty(&<head>); str.encode(<narrow codec>) of text carrying received characters counts as a partial operation in the escape analysis. R12: the token list prepare_req() hands to the command handlers has a verb slot for every datagram that passes the signature test (fold on hostile witnesses such as the bare signature; split on an explicit separator proves it for all inputs) unless the verb matcher is total on an empty list or the receive path tests the list first. R13 (typestate on the statement CFG of every function of trx_if.c): a pointer released by talloc_free(), and the instance plus its queued commands released by osmo_fsm_inst_term() (when the FSM clean-up frees them), is not dereferenced nor has a member address handed to a call on any path from the release to the exit.",
         "note": TB + "Not decided: correctness of later behaviour beyond 'no exception/UB path and guarded state stores'; OS errors; resource exhaustion. Known finding D13 (FAKE_TRXC_DELAY overflow) is listed in known_findings.json.",
     },
     "C09": {
@@ -116,13 +116,13 @@ CLAIMS = {
         "note": TB + "Not decided: numeric equality of decoded values for every message. osmo_load32be/osmo_store32be/memcpy are modelled.",
     },
     "C10": {
-        "technique": "forward substitution + linear normal forms of the stored metadata, decision tables of the randomised properties, constant folding of the training-sequence table and slice offsets, length-tracking interpretation of the burst generators",
+        "technique": "forward substitution + linear normal forms of the stored metadata, decision tables of the randomised properties, constant folding of the training-sequence table and slice offsets, length-tracking interpretation of the burst generators, who-may-write of the negotiated header version",
         "text": "Decides the formulas and positions for all settings: trans() copies fn/tn, converts bits through ubit2sbit and takes the recipient's "
                 "version; bursts go to L1 with legacy padding; RSSI = sender power base - sender attenuation - burst attenuation - path loss (or the "
                 "FAKE_RSSI window), ToA256 = window value - 256 x sender TA, C/I from its window, each window = base or "
                 "randint(base - thr, base + thr); on v1 modulation = pick_by_bl(len(sent burst)), TSC/TSC set from TrainingSeqGMSK.pick "
                 "for GMSK else 0; pick() compares the slices [61:87], [8:49], [42:106] with sequences of the matching burst type; the "
-                "generators place the training sequence at exactly those offsets in 148-bit bursts; the sequence table equals the reference copy. pick() is additionally folded for 30 witness bursts against the reference (first member in definition order whose sequence equals the slice at the position of its burst type); the path-loss term is a constant or a constructor-only attribute of the recipient. R5: a rejected FAKE_TOA / FAKE_RSSI / FAKE_CI command (status != 0 or ValueError) changes no simulated radio setting (handler folded over argument witnesses of both forms); TxMsg.trans folded over {requested version None/0/1} x {own version} x {burst or not}.",
+                "generators place the training sequence at exactly those offsets in 148-bit bursts; the sequence table equals the reference copy. pick() is additionally folded for 30 witness bursts against the reference (first member in definition order whose sequence equals the slice at the position of its burst type); the path-loss term is a constant or a constructor-only attribute of the recipient. R5: a rejected FAKE_TOA / FAKE_RSSI / FAKE_CI command (status != 0 or ValueError) changes no simulated radio setting (handler folded over argument witnesses of both forms); TxMsg.trans folded over {requested version None/0/1} x {own version} x {burst or not}. R7: the header version a recipient negotiated is changed by nothing but SETFORMAT (who-may-write scan over all toolkit modules + per-verb fold of the command handler) - a power event or data path that resets / copies it is reported.",
         "note": TB + "Not decided: numeric values for concrete configurations; randomised values beyond their window bounds; the training-sequence reference is the tree's own content for entries not cross-read against TS 45.002 (detects change).",
     },
 }
